@@ -78,4 +78,14 @@ META = {
         note=BASE_NOTE + "Partial: the quantifier over fault positions is covered by refutation + fault-free proof, not by a positive theorem; attribution of violations to known findings is structural (see known_findings.json).",
         technique="Lean 4 counterexample theorems (decide) + partial invariant proof + model/implementation correspondence with fault injection",
     ),
+    "C03": dict(
+        text="Safety theorem for ALL shard counts and ALL fault-free action lists: every ack sent upstream is >= every earlier ack on that stream and <= the "
+             "last exclusive high received. Liveness theorem (no temporal logic, no bound): from EVERY reachable fault-free state with all target streams "
+             "started - whatever is queued, however full slow targets' queues are, whichever targets never got a task - two fair rounds (source re-sends its "
+             "final watermark H, queues drain, every target acknowledges what it received) end with the source's last ack equal to H; termination of the "
+             "drain is proved with an explicit measure. ~3200 lines of Lean. Model tied to the real code by differential runs incl. the drain phase on the real code.",
+        design_ref="DESIGN.md §5 C03",
+        note=BASE_NOTE + "Not covered: real-time behaviour of the 1 s keep-alive tickers and back-off sleeps (virtual time in the harness), fair schedules that do not contain two such rounds.",
+        technique="Lean 4 invariant proof + termination-measure liveness proof over a fine-grained transition system + model/implementation correspondence",
+    ),
 }
